@@ -2245,6 +2245,76 @@ def _scope_loads_all(root: ast.AST):
         stack.extend(ast.iter_child_nodes(x))
 
 
+def guarded_first_match(ctx: Ctx, rep: Report, rid: str = "R20.15") -> None:
+    """`[o for o in groups if P(o)][0]` in the config-level reader cannot raise IndexError only because a guard function
+    counted `[o for o in groups if P'(o)]` first: the two selections are the same predicate.  A guard that matches more
+    widely than the reader (case-insensitive name, prefix) lets through a reference the reader finds nothing for, and
+    `acls()` raises IndexError - not a documented error.  Judged only when both selections have the list-comprehension
+    shape; any other shape is reported as not judged."""
+    rep.rule(rid)
+    f = ctx.prog.find_func("functions._add_addgr_to_aces")
+    chk = ctx.prog.find_func("functions._check_addgr")
+    if f is None or chk is None:
+        rep.note(f"{rid} functions._add_addgr_to_aces / _check_addgr not found - not judged")
+        return
+
+    def shape(lc: ast.ListComp, owner: Func) -> Optional[str]:
+        if len(lc.generators) != 1 or len(lc.generators[0].ifs) != 1 or not isinstance(lc.generators[0].target, ast.Name):
+            return None
+        var = lc.generators[0].target.id
+        test = lc.generators[0].ifs[0]
+        binds: Dict[str, List[ast.AST]] = {}
+        for a in own_nodes(owner.node):
+            if isinstance(a, ast.Assign) and len(a.targets) == 1 and isinstance(a.targets[0], ast.Name):
+                binds.setdefault(a.targets[0].id, []).append(a.value)
+        env = {k: v[0] for k, v in binds.items() if len(v) == 1}
+
+        def norm(e: ast.AST) -> str:
+            e = resolve_local(e, env) if isinstance(e, ast.Name) and e.id != var else e
+            out = []
+            for x in ast.walk(e):
+                if isinstance(x, ast.Name):
+                    out.append("o" if x.id == var else "N")
+                elif isinstance(x, ast.Attribute):
+                    out.append("." + x.attr)
+                elif isinstance(x, ast.Call):
+                    out.append("call")
+                elif isinstance(x, ast.Constant):
+                    out.append(repr(x.value))
+                elif isinstance(x, (ast.cmpop, ast.operator, ast.boolop, ast.unaryop)):
+                    out.append(type(x).__name__)
+            return " ".join(out)
+
+        if isinstance(test, ast.Compare) and len(test.ops) == 1 and isinstance(test.ops[0], ast.Eq):
+            sides = [norm(test.left), norm(test.comparators[0])]
+            with_var = [s_ for s_ in sides if s_.startswith("o") or " o" in s_]
+            other = [s_ for s_ in sides if s_ not in with_var]
+            if len(with_var) == 1 and len(other) == 1:
+                # the referenced name: a plain value (name / attribute chain) or a transformed one
+                plain = all(tok in ("N",) or tok.startswith(".") for tok in other[0].split())
+                return f"{with_var[0]} == {'<name>' if plain else other[0]}"
+        return None
+
+    readers = []
+    for x in own_nodes(f.node):
+        if isinstance(x, ast.Subscript) and isinstance(x.value, ast.ListComp) and isinstance(x.slice, ast.Constant) and x.slice.value == 0:
+            readers.append((x, shape(x.value, f)))
+    guards = []
+    for x in own_nodes(chk.node):
+        if isinstance(x, ast.ListComp) and len(x.generators) == 1 and isinstance(x.generators[0].iter, ast.Name) and x.generators[0].iter.id in chk.params:
+            guards.append((x, shape(x, chk)))
+    if not readers or not guards or any(sh is None for _x, sh in readers + guards):
+        rep.note(f"{rid} the reader's first-match selection or the guard's count has another shape - not judged")
+        return
+    gshapes = {sh for _x, sh in guards}
+    for x, sh in readers:
+        rep.instance()
+        if sh in gshapes:
+            rep.ok(f"functions._add_addgr_to_aces: {snippet(x, 50)}", f"the guard _check_addgr counted the same selection ({sh})", where=where(f, x))
+        else:
+            rep.violation("functions._add_addgr_to_aces", snippet(x, 60), f"the first match is taken from the selection `{sh}`, the guard _check_addgr counted `{sorted(gshapes)[0]}`: a reference the guard accepts and the reader does not find raises IndexError out of acls()/aces() - not a documented value/type error", where(f, x), inp="config defines object-group SERVERS, an ACE says `object-group servers`")
+
+
 def run(ctx: Ctx, rep: Report, tier: str) -> None:
     entries, sl = slice_funcs(ctx)
     r20_1a(ctx, rep, entries)
@@ -2264,6 +2334,7 @@ def run(ctx: Ctx, rep: Report, tier: str) -> None:
     rep.absorb(sub01, "R20.11")
     group_never_built_empty(ctx, rep)
     remark_has_text(ctx, rep)
+    guarded_first_match(ctx, rep)
     # R20.13 premises of "what it returns renders text the same constructor accepts again", as far as they are visible in
     # the shape of the code: no reader bounds the length of a text the writer can lengthen (C06 R06.9); every protocol name
     # the writer can choose is in the reader's grammar (C09 R09.13)
